@@ -130,6 +130,104 @@ impl<'tcx> Cx<'tcx> {
         o
     }
 
+    /// Value of type `ty` stored at `off` in `alloc`, decoded through the type's layout: integers, bool, char,
+    /// arrays, tuples, and references to byte / str slices (followed into their allocation).  None for anything else.
+    fn decode_value(
+        &self,
+        alloc: &rustc_middle::mir::interpret::Allocation,
+        off: usize,
+        ty: Ty<'tcx>,
+        depth: usize,
+    ) -> Option<J> {
+        let tcx = self.tcx;
+        if depth > 4 {
+            return None;
+        }
+        let env = TypingEnv::fully_monomorphized();
+        let layout = tcx.layout_of(env.as_query_input(ty)).ok()?;
+        let size = layout.size.bytes_usize();
+        if off + size > alloc.len() {
+            return None;
+        }
+        let raw = alloc.inspect_with_uninit_and_ptr_outside_interpreter(off..off + size);
+        let int_of = |b: &[u8], signed: bool| -> i128 {
+            let mut v: u128 = 0;
+            for (k, x) in b.iter().enumerate().take(16) {
+                v |= (*x as u128) << (8 * k);
+            }
+            if signed && b.len() < 16 {
+                let sh = 128 - 8 * b.len() as u32;
+                ((v << sh) as i128) >> sh
+            } else {
+                v as i128
+            }
+        };
+        match ty.kind() {
+            ty::Bool | ty::Char | ty::Uint(_) => {
+                let mut o = J::obj();
+                o.set("int", J::Int(int_of(raw, false)));
+                Some(o)
+            }
+            ty::Int(_) => {
+                let mut o = J::obj();
+                o.set("int", J::Int(int_of(raw, true)));
+                Some(o)
+            }
+            ty::Array(elem, _) => {
+                let el = tcx.layout_of(env.as_query_input(*elem)).ok()?;
+                let es = el.size.bytes_usize();
+                if es == 0 || size / es > 4096 {
+                    return None;
+                }
+                let mut items = Vec::new();
+                for i in 0..(size / es) {
+                    items.push(self.decode_value(alloc, off + i * es, *elem, depth + 1)?);
+                }
+                let mut o = J::obj();
+                o.set("array", J::Arr(items));
+                Some(o)
+            }
+            ty::Tuple(tys) => {
+                let mut items = Vec::new();
+                for (i, t) in tys.iter().enumerate() {
+                    let fo = layout.fields.offset(i).bytes_usize();
+                    items.push(self.decode_value(alloc, off + fo, t, depth + 1)?);
+                }
+                let mut o = J::obj();
+                o.set("tuple", J::Arr(items));
+                Some(o)
+            }
+            ty::Ref(_, inner, _) if inner.is_str() || matches!(inner.kind(), ty::Slice(t) if t.is_integral()) => {
+                // fat pointer: (address, length); the address carries provenance into another allocation
+                let (poff, prov) = alloc
+                    .provenance()
+                    .ptrs()
+                    .iter()
+                    .map(|(o, p)| (o.bytes_usize(), *p))
+                    .find(|(o, _)| *o == off)?;
+                let _ = poff;
+                let addend = int_of(&raw[0..8], false) as usize;
+                let len = int_of(&raw[8..16], false) as usize;
+                if let GlobalAlloc::Memory(m) = tcx.global_alloc(prov.alloc_id()) {
+                    let m = m.inner();
+                    let esz = match inner.kind() {
+                        ty::Slice(t) => tcx.layout_of(env.as_query_input(*t)).ok()?.size.bytes_usize(),
+                        _ => 1,
+                    };
+                    if esz != 1 || addend + len > m.len() {
+                        return None;
+                    }
+                    let bytes = m.inspect_with_uninit_and_ptr_outside_interpreter(addend..addend + len);
+                    let mut o = J::obj();
+                    o.set("bytes", J::Arr(bytes.iter().map(|b| J::Int(*b as i128)).collect()));
+                    return Some(o);
+                }
+                None
+            }
+            _ => None,
+        }
+    }
+
     fn static_init(&self, did: DefId) -> J {
         let tcx = self.tcx;
         let mut o = J::obj();
@@ -138,6 +236,11 @@ impl<'tcx> Cx<'tcx> {
         if let Ok(alloc) = tcx.eval_static_initializer(did) {
             let a = alloc.inner();
             let len = a.len();
+            if !a.provenance().ptrs().is_empty() || matches!(ty.kind(), ty::Array(t, _) if matches!(t.kind(), ty::Tuple(_))) {
+                if let Some(v) = self.decode_value(a, 0, ty, 0) {
+                    o.set("value", v);
+                }
+            }
             let ptrs: Vec<_> = a.provenance().ptrs().iter().map(|(off, p)| (*off, *p)).collect();
             if ptrs.is_empty() {
                 let bytes = a.inspect_with_uninit_and_ptr_outside_interpreter(0..len);
